@@ -100,6 +100,7 @@ structure Skeleton where
   stubOneOutDecodesValueOnlyIfNotError : Bool
   /- ---------------- response loop ---------------- -/
   respPublishAsync           : Bool  -- `go responseResolver.Publish(…)`
+  respEveryReturnReports     : Bool  -- the responder: every `return` directly follows a setErr(…): a request is answered or the link ends
   respPublishFireAndForget   : Bool  -- the publish is a statement of its own; nothing (no setErr) hangs on whether somebody took the value
   respPublishKeyIsResCall    : Bool
   respPublishValueIsResValue : Bool
